@@ -101,18 +101,16 @@ BTypeBad(P, f, t) == \E r \in Leaves(t) : ~IsTypeRef(P, f, r)
 NilEnum == [r |-> "nil", h |-> 0, i |-> 0]
 RECURSIVE BGetEnum(_, _, _, _)
 BGetEnum(P, f, name, fuel) ==
-  LET ks == Named(FileOf(P, f), name) IN
-  IF ks = {} THEN NilEnum
-  ELSE LET g == CHOOSE x \in ks : \A y \in ks : x.i <= y.i \/ x.kind # y.kind IN
-       IF g.kind = "enum" THEN [r |-> "enum", h |-> f, i |-> g.i]
-       ELSE IF g.kind # "typedef" THEN NilEnum
-       ELSE IF fuel = 0 THEN [r |-> "overflow", h |-> 0, i |-> 0]
-       ELSE LET t == FileOf(P, f).tds[g.i].type IN
-            IF t.n # "ref" THEN NilEnum
-            ELSE IF t.q = "" THEN BGetEnum(P, f, t.name, fuel - 1)
-            ELSE LET hs == {h \in HomesOf(P, f, t.q) : \E d \in Named(FileOf(P, h), t.name) : d.kind \in TypeKinds}
-                 IN IF hs = {} THEN NilEnum
-                    ELSE BGetEnum(P, CHOOSE h \in hs : \A h2 \in hs : h >= h2, t.name, fuel - 1)
+  LET F == FileOf(P, f) IN
+  IF HasIn(F.enums, name) /\ ~HasIn(F.tds, name) THEN [r |-> "enum", h |-> f, i |-> FirstIn(F.enums, name)]
+  ELSE IF ~HasIn(F.tds, name) THEN NilEnum
+  ELSE IF fuel = 0 THEN [r |-> "overflow", h |-> 0, i |-> 0]
+  ELSE LET t == F.tds[FirstIn(F.tds, name)].type IN
+       IF t.n # "ref" THEN NilEnum
+       ELSE IF t.q = "" THEN BGetEnum(P, f, t.name, fuel - 1)
+       ELSE LET hs == {h \in HomesOf(P, f, t.q) : HasTypeName(FileOf(P, h), t.name)}
+            IN IF hs = {} THEN NilEnum
+               ELSE BGetEnum(P, CHOOSE h \in hs : \A h2 \in hs : h <= h2, t.name, fuel - 1)
 GetEnum(P, f, name) == BGetEnum(P, f, name, NTypedefs(P) + 1)
 EnumMatches(P, e, vn) ==
   IF e.r # "enum" THEN 0
@@ -123,13 +121,12 @@ EnumMatches(P, e, vn) ==
 BIdLabel(n) == IF n = 0 THEN "resolve.undefinedValue" ELSE IF n = 1 THEN "" ELSE "resolve.ambiguous"
 BId(P, f, parts) ==
   LET F == FileOf(P, f) IN
-  CASE Len(parts) = 1 -> BIdLabel(IF \E g \in Named(F, parts[1]) : g.kind = "const" THEN 1 ELSE 0)
+  CASE Len(parts) = 1 -> BIdLabel(IF HasIn(F.consts, parts[1]) THEN 1 ELSE 0)
     [] Len(parts) = 2 ->
          LET e == GetEnum(P, f, parts[1]) IN
          IF e.r = "overflow" THEN "crash.stackOverflow"
          ELSE BIdLabel(EnumMatches(P, e, parts[2])
-                       + Cardinality({i \in IncsWithPrefix(P, f, parts[1]) :
-                                        \E g \in Named(FileOf(P, F.incs[i].target), parts[2]) : g.kind = "const"}))
+                       + Cardinality({i \in IncsWithPrefix(P, f, parts[1]) : HasIn(FileOf(P, F.incs[i].target).consts, parts[2])}))
     [] Len(parts) = 3 ->
          LET is == IncsWithPrefix(P, f, parts[1]) IN
          IF \E i \in is : GetEnum(P, F.incs[i].target, parts[2]).r = "overflow" THEN "crash.stackOverflow"
@@ -176,8 +173,9 @@ BResolveFile(P, f) ==
               IF k % 2 = 1 THEN BTypeLabel(P, f, c.type) ELSE BConstValue(P, f, c.value)]
         \o [k \in Idx(F.structs) |-> BFieldsLabel(P, f, F.structs[k].fields)]
         \o [k \in Idx(F.services) |-> BServiceLabel(P, f, F.services[k])]
-        \o <<If(\E r \in TypeRefs(F) : Cat(P, f, [n |-> "ref", q |-> r.q, name |-> r.name]).cat = "cycle",
-                "resolve.typedefs")>>)
+        \* ResolveTypedefs: the references to typedefs that never leave the category "typedef" - a typedef of
+        \* this file whose chain comes back to itself is one of them
+        \o <<If(\E k \in Idx(F.tds) : Cat(P, f, F.tds[k].type).cat = "cycle", "resolve.typedefs")>>)
 \* includes first, recursively, each file once: the post-order again, stopping at the first error
 BResolve(P) == LET po == PostOrder(P) IN First([k \in Idx(po) |-> BResolveFile(P, po[k])])
 
@@ -207,12 +205,12 @@ UsedInc(P, f, i) ==
   LET F == FileOf(P, f)
       inc == F.incs[i]
       T == FileOf(P, inc.target)
-  IN \/ \E r \in TypeRefs(F) : r.q = inc.prefix /\ \E g \in Named(T, r.name) : g.kind \in TypeKinds
+  IN \/ \E r \in TypeRefs(F) : r.q = inc.prefix /\ HasTypeName(T, r.name)
      \/ \E ps \in ResolvedIds(F) :
-          \/ Len(ps) = 2 /\ ps[1] = inc.prefix /\ \E g \in Named(T, ps[2]) : g.kind = "const"
+          \/ Len(ps) = 2 /\ ps[1] = inc.prefix /\ HasIn(T.consts, ps[2])
           \/ Len(ps) = 3 /\ ps[1] = inc.prefix /\ EnumMatches(P, GetEnum(P, inc.target, ps[2]), ps[3]) > 0
      \/ \E k \in Idx(F.services) : F.services[k].hasExt /\ F.services[k].ext.q = inc.prefix
-                                   /\ \E g \in Named(T, F.services[k].ext.name) : g.kind = "service"
+                                   /\ HasIn(T.services, F.services[k].ext.name)
 UsedTargets(P, f) == {FileOf(P, f).incs[i].target : i \in {j \in Idx(FileOf(P, f).incs) :
                                                            FileOf(P, f).incs[j].target # 0 /\ UsedInc(P, f, j)}}
 RECURSIVE ScopeClosure(_, _, _)
